@@ -47,6 +47,9 @@ LO, HI = 0x0FFF, 0x1007          # probe window [LO, HI)
 PAGE_ADDRS = [0x1000, 0x1002, 0x1001, 0x1004]
 PERMS = [R | W, R, W]
 ENCLOSING_PAGES = [(0x1001, 1), (0x1002, 1), (0x1000, 4), (0x1001, 3), (0x1000, 3)]
+# pages at the two ends of the address space: a zero-sized (and a 1-byte) page at address 0, whose end computations
+# (ad + size - 1) underflow, and a page ending at 2^64
+EDGE_PAGES = [(0x0, 0), (0x0, 1), (0xFFFFFFFFFFFFFFFE, 2)]
 
 _mods = {}
 
@@ -133,6 +136,9 @@ def events(st):
     # 1-byte pages and 3/4-byte pages: a new page may strictly enclose an existing one (or be enclosed by it)
     if len(st.pages) < 3:
         for a, size in ENCLOSING_PAGES:
+            evs.append(("add", a, size, R | W))
+    if len(st.pages) < 4 and not any(p[0] in (0x0, 0xFFFFFFFFFFFFFFFE) for p in st.pages):
+        for a, size in EDGE_PAGES:
             evs.append(("add", a, size, R | W))
     for p in st.pages:
         if p[1] > 0:
@@ -413,6 +419,8 @@ def seeds(quick):
         [("add", 0x1000, 2, W), ("add", 0x1002, 2, R | W), ("add", 0x1004, 2, R)],
         [("add", 0x1001, 1, R | W)],
         [("add", 0x1000, 1, R | W), ("add", 0x1002, 1, R)],
+        [("add", 0x0, 0, R | W), ("add", 0x1000, 2, R | W)],
+        [("add", 0x0, 0, R | W), ("add", 0x1000, 2, R | W), ("add", 0x1002, 2, R), ("add", 0x1004, 2, R | W)],
     ]
     out = [{"big": False, "pre": l} for l in lay]
     out += [{"big": True, "pre": l} for l in (lay[1], lay[2]) + (() if quick else tuple(lay[3:]))]
